@@ -29,6 +29,7 @@ import (
 
 	"com.tuntun.rangers/node/src/common"
 	"com.tuntun.rangers/node/src/core"
+	"com.tuntun.rangers/node/src/executor"
 	"com.tuntun.rangers/node/src/middleware/db"
 	"com.tuntun.rangers/node/src/middleware/types"
 	"com.tuntun.rangers/node/src/service"
@@ -57,6 +58,7 @@ type MinerS struct {
 	Account     string `json:"account"` // hex bytes
 	ApplyHeight uint64 `json:"applyHeight"`
 	Status      byte   `json:"status"`
+	applied     bool   // not part of the parent state: registered by a miner-apply transaction of the block
 }
 type CodeS struct {
 	Addr string `json:"addr"`
@@ -97,6 +99,7 @@ type Scenario struct {
 	Castor    string   `json:"castor,omitempty"`
 	Txs       []TxS    `json:"txs"`
 	Situation string   `json:"situation,omitempty"`
+	SiteAdd   []Esc       `json:"siteAdd,omitempty"` // site-level scenario: one RefundManager.Add call with these (height, id, value) entries, then CheckAndMove
 	History   []HistPoint `json:"history,omitempty"` // fresh-process comparison: what the process executed before this block
 	CastCut   int      `json:"castCut,omitempty"` // casting-mode scenario: the deadline strikes when the loop reaches its CastCut-th executed transaction
 	Config    string   `json:"config,omitempty"` // "" = dev table with the flag vector; "mainnet" / "robin" = the real schedule at this height
@@ -588,6 +591,27 @@ func txTokens(r *hx.Rng, x TxS, watch map[common.Address]bool) string {
 		}
 		return sb.String() + " r " + amt + " " + hx.Hex(common.FromHex(d.MinerId))
 	}
+	if x.Type == types.TransactionTypeMinerApply || x.Type == types.TransactionTypeMinerChangeAccount {
+		var m types.Miner
+		if err := json.Unmarshal([]byte(x.Data), &m); err != nil {
+			return sb.String() + " j " + hx.Hex([]byte(x.Data))
+		}
+		acct := "-"
+		if len(m.Account) > 0 {
+			acct = a20(common.BytesToAddress(m.Account))
+			watch[common.BytesToAddress(m.Account)] = true
+		}
+		if x.Type == types.TransactionTypeMinerChangeAccount {
+			return sb.String() + " c " + hx.Hex(m.Id) + " " + acct
+		}
+		b := func(v []byte) int {
+			if utility.IsEmptyByteSlice(v) {
+				return 0
+			}
+			return 1
+		}
+		return sb.String() + fmt.Sprintf(" p %s %d %d %d %d %s", hx.Hex(m.Id), m.Type, m.Stake, b(m.PublicKey), b(m.VrfPublicKey), acct)
+	}
 	if x.Type == types.TransactionTypeMinerAdd {
 		var m types.Miner
 		if err := json.Unmarshal([]byte(x.Data), &m); err != nil {
@@ -647,6 +671,30 @@ func sortedEsc(m map[escKey]bool) []escKey {
 	return l
 }
 
+// appliedMiners: the (id, type) pairs the block's miner-apply transactions try to register
+func appliedMiners(sc *Scenario) []MinerS {
+	var res []MinerS
+	seen := map[string]bool{}
+	for _, m := range sc.Miners {
+		seen[m.Id+string(rune(m.Type))] = true
+	}
+	for _, x := range sc.Txs {
+		if x.Type != types.TransactionTypeMinerApply {
+			continue
+		}
+		var m types.Miner
+		if json.Unmarshal([]byte(x.Data), &m) != nil || len(m.Id) == 0 || m.Type > 1 {
+			continue
+		}
+		k := hex.EncodeToString(m.Id) + string(rune(m.Type))
+		if !seen[k] {
+			seen[k] = true
+			res = append(res, MinerS{Id: hex.EncodeToString(m.Id), Type: m.Type, applied: true})
+		}
+	}
+	return res
+}
+
 func minerDB(t byte) common.Address {
 	if t == common.MinerTypeProposer {
 		return common.ProposerDBAddress
@@ -664,7 +712,15 @@ func dump(st *account.AccountDB, watch []common.Address, wesc []escKey, miners [
 		e = append(e, fmt.Sprintf("%d:%s:%s", k.h, a20(k.id), v.String()))
 	}
 	// registry as stored: id key (alive), stake key, account key, status key (else the JSON status)
-	for _, mi := range miners {
+	sorted := append([]MinerS{}, miners...)
+	sort.SliceStable(sorted, func(i, j int) bool {
+		a, b := new(big.Int).SetBytes(unhex(sorted[i].Id)), new(big.Int).SetBytes(unhex(sorted[j].Id))
+		if c := a.Cmp(b); c != 0 {
+			return c < 0
+		}
+		return sorted[i].Type < sorted[j].Type
+	})
+	for _, mi := range sorted {
 		db, id := minerDB(mi.Type), unhex(mi.Id)
 		k1 := common.Sha256(id)
 		k2 := common.Sha256(k1)
@@ -681,6 +737,9 @@ func dump(st *account.AccountDB, watch []common.Address, wesc []escKey, miners [
 		status := mi.Status
 		if b := st.GetData(db, k3); len(b) == 1 {
 			status = b[0]
+		}
+		if mi.applied && alive == 0 {
+			continue // a miner this block tried to register: nothing stored (or stored and removed again)
 		}
 		m = append(m, fmt.Sprintf("%s:%d:%d:%s:%d:%d", new(big.Int).SetBytes(id).String(), mi.Type, stake, acct, status, alive))
 	}
@@ -787,6 +846,16 @@ func emitScenario(out *hx.Out, r *hx.Rng, sc *Scenario) {
 	for _, x := range sc.Txs {
 		txs.WriteString(txTokens(r, x, watch))
 	}
+	// every watched address may become a miner account inside the block (apply / change-account) and
+	// then receive a reward or a refund: watch its escrow slots at the pay-out heights as well
+	{
+		nh := service.RewardCalculatorImpl.NextRewardHeight(sc.Height)
+		for a := range watch {
+			wesc[escKey{nh, a}] = true
+			wesc[escKey{sc.Height, a}] = true
+			wesc[escKey{sc.Height + 36000, a}] = true
+		}
+	}
 	wl, el := sortedAddrs(watch), sortedEsc(wesc)
 	ws := "watch"
 	for _, w := range wl {
@@ -836,7 +905,8 @@ func emitScenario(out *hx.Out, r *hx.Rng, sc *Scenario) {
 		}
 		for _, x := range o.receipts {
 			msg := hx.Hex([]byte(x.Msg))
-			if t := typeOf[x.TxHash]; t == types.TransactionTypeMinerRefund || t == types.TransactionTypeMinerAdd {
+			if t := typeOf[x.TxHash]; t == types.TransactionTypeMinerRefund || t == types.TransactionTypeMinerAdd ||
+				t == types.TransactionTypeMinerApply || t == types.TransactionTypeMinerChangeAccount {
 				msg = "-" // message text of miner transactions is not modelled
 			}
 			rc = append(rc, fmt.Sprintf("%s:%d:%s", hex.EncodeToString(x.TxHash.Bytes()), x.Status, msg))
@@ -849,7 +919,19 @@ func emitScenario(out *hx.Out, r *hx.Rng, sc *Scenario) {
 		fresh, _ := account.NewAccountDB(nr, t)
 		df := fmt.Sprintf(" df=%d:%d", utility.ByteToUInt64(fresh.GetData(common.DifficultyAddress, castorBytes(sc))),
 			utility.ByteToUInt64(fresh.GetData(common.DifficultyAddress, common.TotalWorkingMiners)))
-		return "ev=" + strings.Join(ev, ",") + " rc=" + strings.Join(rc, ",") + " " + dump(fresh, wl, el, sc.Miners) + df
+		// the receipts root as the node computes it (blocks without EVM / node transactions: their receipts
+		// carry logs, gas and contract addresses the model does not render)
+		rr := " rr=-"
+		plainRc := true
+		for _, x := range sc.Txs {
+			if x.Type == 200 || x.Type == 188 || x.Type == 7 {
+				plainRc = false
+			}
+		}
+		if plainRc {
+			rr = " rr=" + hx.Hex(core.VerifC01ReceiptsRoot(o.receipts).Bytes())
+		}
+		return "ev=" + strings.Join(ev, ",") + " rc=" + strings.Join(rc, ",") + " " + dump(fresh, wl, el, append(append([]MinerS{}, sc.Miners...), appliedMiners(sc)...)) + df + rr
 	})
 }
 
@@ -1022,6 +1104,15 @@ func genScenario(r *hx.Rng, i int, allowOpaque bool) *Scenario {
 	next := map[string]uint64{}
 	for k := 0; k < ntx; k++ {
 		a := poolAddrs[perm[r.Intn(na)]]
+		if r.Chance(2, 3) {
+			// prefer a sender that can pay the fee (the fee-short branch used to dominate the stream)
+			for try := 0; try < 4; try++ {
+				if b := bals[a]; b != nil && b.Cmp(new(big.Int).Mul(fee, big.NewInt(4))) > 0 {
+					break
+				}
+				a = poolAddrs[perm[r.Intn(na)]]
+			}
+		}
 		if r.Chance(1, 12) {
 			a = poolAddrs[r.Intn(len(poolAddrs))] // maybe an unfunded sender
 		}
@@ -1296,6 +1387,70 @@ func genScenario(r *hx.Rng, i int, allowOpaque bool) *Scenario {
 		}
 		sc.Txs = append(sc.Txs, x)
 	}
+	// miner apply (fresh ids, optional fields absent at random, stakes around the minimum) and
+	// change-account transactions (own / foreign sender, free / occupied / absent target account)
+	for k := r.Pick(0, 0, 1, 1, 2, 3); k > 0 && len(sc.Accounts) > 0 && len(sc.Txs) < 12; k-- {
+		ai := r.Intn(len(sc.Accounts))
+		src := sc.Accounts[ai].Addr
+		if r.Chance(3, 4) { // a stake costs 400 / 2000 RPG: mostly a sender who can afford it (sometimes exactly)
+			sc.Accounts[ai].Bal = e18(int64(r.Pick(400, 2000, 2001, 10000, 10000))).String()
+			if r.Bool() {
+				sc.Accounts[ai].Bal = new(big.Int).Add(bigOf(sc.Accounts[ai].Bal), feeOf(sc)).String()
+			}
+		}
+		typ := byte(r.Pick(0, 0, 1, 1, 2))
+		min := uint64(400)
+		if typ == 1 {
+			min = 2000
+		}
+		m := types.Miner{Id: freshMinerId(r), Type: typ, Stake: min + uint64(r.Pick(0, 0, 1, 100)) - uint64(r.Pick(0, 0, 0, 1))}
+		if r.Chance(4, 5) {
+			m.PublicKey = []byte{1, byte(r.Intn(256))}
+		}
+		if r.Chance(4, 5) {
+			m.VrfPublicKey = []byte{2, byte(1 + r.Intn(255))}
+		}
+		if r.Chance(1, 2) {
+			m.Account = unhex(poolAddrs[r.Intn(len(poolAddrs))])
+		}
+		d, _ := json.Marshal(m)
+		x := TxS{Source: "0x" + src, Type: 2, Hash: hex.EncodeToString(r.Bytes(32)), Data: string(d)}
+		if r.Chance(1, 15) {
+			x.Data = "{\"id\":"
+		}
+		sc.Txs = append(sc.Txs, x)
+	}
+	for k := r.Pick(0, 0, 1, 2); k > 0 && len(sc.Miners) > 0 && len(sc.Txs) < 12; k-- {
+		mi := sc.Miners[r.Intn(len(sc.Miners))]
+		src := mi.Account
+		if r.Chance(1, 5) {
+			src = poolAddrs[r.Intn(len(poolAddrs))]
+		}
+		m := types.Miner{Id: unhex(mi.Id)}
+		switch r.Intn(6) {
+		case 0:
+			m.Account = unhex(mi.Account) // no change
+		case 1: // absent
+		case 2:
+			m.Account = unhex(sc.Miners[r.Intn(len(sc.Miners))].Account) // probably occupied
+		default:
+			m.Account = unhex(evmPool[6+r.Intn(8)]) // a free one
+		}
+		if r.Chance(1, 10) {
+			m.Id = []byte{0xde, 0xad}
+		}
+		d, _ := json.Marshal(m)
+		funded := false
+		for _, a := range sc.Accounts {
+			if a.Addr == src {
+				funded = true
+			}
+		}
+		if !funded {
+			sc.Accounts = append(sc.Accounts, Acct{src, e18(2).String(), 0})
+		}
+		sc.Txs = append(sc.Txs, TxS{Source: "0x" + src, Type: 6, Hash: hex.EncodeToString(r.Bytes(32)), Data: string(d)})
+	}
 	// receipts and observed EVM steps are matched to transactions by hash: keep hashes unique
 	seenHash := map[string]bool{}
 	for i := range sc.Txs {
@@ -1566,7 +1721,7 @@ func genHistorical(r *hx.Rng, i int, interpretedOnly bool) *Scenario {
 		sc.Miners, sc.Group, sc.Castor = nil, nil, ""
 		var keep []TxS
 		for _, x := range sc.Txs {
-			if x.Type != 4 && x.Type != 5 && x.Type != 200 {
+			if x.Type != 2 && x.Type != 4 && x.Type != 5 && x.Type != 6 && x.Type != 200 {
 				keep = append(keep, x)
 			}
 		}
@@ -1733,6 +1888,69 @@ func emitSiteOps(out *hx.Out, r *hx.Rng, i int) {
 				return o + hx.Hex([]byte(msg)) + " " + dump(f, wl, el, nil)
 			})
 		}
+	}
+}
+
+
+// emitContractPreOps: the pure pre-execution functions of the contract executor against the model:
+// executor.IntrinsicGas and the gas limit decodeContractData takes from the payload.
+func emitContractPreOps(out *hx.Out, r *hx.Rng) {
+	sc := &Scenario{Height: 50, Flags: "111111", P026: r.Bool()}
+	applyFlags(sc, 49, false)
+	for k := 0; k < 4; k++ {
+		n := r.Pick(0, 1, 2, 31, 32, 33, 64, 200, 1000)
+		data := r.Bytes(n)
+		switch r.Intn(5) {
+		case 0:
+			for i := range data {
+				data[i] = 0
+			}
+		case 1:
+			for i := range data {
+				if r.Chance(2, 3) {
+					data[i] = 0
+				}
+			}
+		case 2:
+			for i := range data {
+				if data[i] == 0 {
+					data[i] = 1
+				}
+			}
+		}
+		cr := r.Bool()
+		p26 := 0
+		if sc.P026 {
+			p26 = 1
+		}
+		c := 0
+		if cr {
+			c = 1
+		}
+		out.Do(fmt.Sprintf("igas %s %d %d", hx.Hex(data), c, p26), func() string {
+			g, err := executor.IntrinsicGas(data, cr)
+			if err != nil {
+				return "overflow"
+			}
+			return strconv.FormatUint(g, 10)
+		})
+	}
+	fields := []string{"", "0", "1", "6000000", "30000001", "18446744073709551615", "18446744073709551616", "007", "-1", "+1", "1e3", "abc", " 1", "1 ", "00",
+		"99999999999999999999999999", "0x10", "1_000", strconv.Itoa(r.Intn(1 << 30))}
+	for k := 0; k < 3; k++ {
+		f := fields[r.Intn(len(fields))]
+		d, _ := json.Marshal(types.ContractData{GasLimit: f, TransferValue: "0", AbiData: "0x"})
+		p17 := 0
+		if common.IsProposal017() {
+			p17 = 1
+		}
+		out.Do(fmt.Sprintf("dcd %s %d", hx.Hex([]byte(f)), p17), func() string {
+			g, _, _, msg := executor.VerifC18DecodeContractData(string(d))
+			if msg != "" {
+				return "err"
+			}
+			return strconv.FormatUint(g, 10)
+		})
 	}
 }
 
@@ -2349,6 +2567,58 @@ func historyFamily(r *hx.Rng, count int, report func(sc *Scenario, res map[strin
 	return evals
 }
 
+
+// siteFold: the map-range sites called directly, N times on fresh AccountDBs opened at the same
+// root: one RefundManager.Add with a multi-height map (zero values, repeated ids, several heights —
+// what pre-Proposal012 refunds and rewards produce) followed by CheckAndMove of every height.
+func siteFold(sc *Scenario, n int) map[string]int {
+	applyFlags(sc, sc.Height-1, false)
+	root, t := buildParent(sc)
+	res := map[string]int{}
+	for i := 0; i < n; i++ {
+		fp := hx.Guard(func() string {
+			st, err := account.NewAccountDB(root, t)
+			if err != nil {
+				panic(err)
+			}
+			data := map[uint64]types.RefundInfoList{}
+			hs := map[uint64]bool{}
+			for _, e := range sc.SiteAdd {
+				l := data[e.H]
+				l.AddRefundInfo(unhex(e.Id), bigOf(e.V))
+				data[e.H] = l
+				hs[e.H] = true
+			}
+			service.RefundManagerImpl.Add(data, st)
+			mid := st.IntermediateRoot(true)
+			for h := range hs {
+				service.RefundManagerImpl.CheckAndMove(h, st)
+			}
+			return "root=" + mid.Hex() + " after-move=" + st.IntermediateRoot(true).Hex() + " ev= rc="
+		})
+		res[fp]++
+	}
+	return res
+}
+
+func siteFamily(r *hx.Rng, count, n int, report func(sc *Scenario, res map[string]int)) int {
+	for k := 0; k < count; k++ {
+		sc := &Scenario{Name: fmt.Sprintf("site-add-%d", k), Height: 100, Flags: "111111", P026: true,
+			Accounts: []Acct{{poolAddrs[0], e18(5).String(), 0}}}
+		nh := 2 + r.Intn(3)
+		for h := 0; h < nh; h++ {
+			for e := r.Pick(1, 1, 2, 3); e > 0; e-- {
+				sc.SiteAdd = append(sc.SiteAdd, Esc{uint64(100 + 50*h), poolAddrs[r.Intn(len(poolAddrs))], e18(int64(r.Pick(0, 0, 1, 2, 3))).String()})
+			}
+		}
+		if r.Bool() { // something already booked at one of the heights
+			sc.Escrow = []Esc{{100, poolAddrs[r.Intn(len(poolAddrs))], e18(1).String()}}
+		}
+		report(sc, siteFold(sc, n))
+	}
+	return count * n
+}
+
 // concurrentBatch (evidence, not proof): K different blocks are executed by K goroutines at the same
 // time — as a node does when it casts in a goroutine while verifying incoming blocks — and every
 // result must equal the one the same block gives when executed alone.
@@ -2472,6 +2742,7 @@ func search(a map[string]string, r *hx.Rng) {
 		distinct[sc.Name] = true
 		report(sc, res)
 	}
+	evals += siteFamily(r.Fork(), 24, n, report)
 	evals += historyFamily(r.Fork(), hx.ArgInt(a, "hist", 9), report)
 	for _, fam := range extraFamilies {
 		evals += fam(r.Fork(), report)
@@ -2632,7 +2903,9 @@ func main() {
 		}
 		poisonRng = r.Fork() // the replay, too, poisons the process half-way through
 		var res map[string]int
-		if len(sc.History) > 0 {
+		if len(sc.SiteAdd) > 0 {
+			res = siteFold(&sc, hx.ArgInt(a, "n", 64))
+		} else if len(sc.History) > 0 {
 			res = compareWithFreshProcess(&sc)
 		} else if sc.CastCut > 0 && replayHooked != nil {
 			res = replayHooked(&sc)
@@ -2673,6 +2946,7 @@ func main() {
 		case i%10 == 8:
 			emitSortOp(out, r)
 			emitSortOp(out, r)
+			emitContractPreOps(out, r)
 		case i%10 == 9:
 			emitMalformed(out, r)
 		case i%10 == 3:
